@@ -163,7 +163,8 @@ func genLedgerFacts() (string, error) {
 	b.WriteString("\n/-- digest (first 6 bytes of SHA-256 of the comment-free, whitespace-normalised body) of every Go function the\nhand model `Canopy.Model.Ledger` transcribes -/\n")
 	fmt.Fprintf(&b, "def handlerDigests : List (String × String) := [\n  %s]\n", strings.Join(digests, ",\n  "))
 	// genesis de-duplication (C12 `genesis_dedup_pinned`, hypothesis of C04 `inv_genesis`): for each of the three record
-	// lists `ValidateGenesisState` ranges over, the key handed to a DeDuplicator and the error returned on a repeat
+	// lists `ValidateGenesisState` ranges over (and each validator's committee list), the key handed to a DeDuplicator and
+	// the error returned on a repeat
 	{
 		pf, e := g.ParseFile(filepath.Join(*repo, "fsm/genesis.go"))
 		if e != nil {
@@ -196,9 +197,24 @@ func genLedgerFacts() (string, error) {
 				return "", e
 			}
 			rows = append(rows, fmt.Sprintf("(%q, %q, %q)", list, strings.Join(strings.Fields(m[1]), ""), id))
+			if list == "Validators" {
+				// the nested loop over the validator's own committee list (0262f16), inside the validator loop and after
+				// the duplicate-validator rejection
+				inner := body[l[1]:end]
+				after := inner[strings.Index(inner, m[0])+len(m[0]):]
+				nm := regexp.MustCompile(`(?s)for _, (\w+) := range ` + regexp.QuoteMeta(body[l[2]:l[3]]) + `\.Committees \{\s*if found := \w+\.Found\((\w+)\); found \{\s*return (?:lib\.)?(\w+)\(\)`).FindStringSubmatch(after)
+				if nm == nil || nm[1] != nm[2] {
+					return "", fmt.Errorf("ValidateGenesisState: no duplicate rejection over a validator's Committees after the duplicate-validator check")
+				}
+				cid, e := ctor(nm[3])
+				if e != nil {
+					return "", e
+				}
+				rows = append(rows, fmt.Sprintf("(%q, %q, %q)", "Validators[i].Committees", nm[2], cid))
+			}
 		}
-		if len(rows) != 3 {
-			return "", fmt.Errorf("ValidateGenesisState: expected loops over Validators, Accounts, Pools, found %d", len(rows))
+		if len(rows) != 4 {
+			return "", fmt.Errorf("ValidateGenesisState: expected de-duplication of Validators, Validators[i].Committees, Accounts, Pools, found %d", len(rows))
 		}
 		b.WriteString("\n/-- `ValidateGenesisState`: (list, key handed to the DeDuplicator, error identity returned on a repeated key) -/\n")
 		fmt.Fprintf(&b, "def genesisDedup : List (String × String × String) := [\n  %s]\n", strings.Join(rows, ",\n  "))
